@@ -866,10 +866,12 @@ COUNTERS = [
     ("peg-down1-up1", ["peg_rule"], r"\bdown1\s*\(", r"\bup1\s*\("),
     ("peg-builder-depth", ["peg_compile1"], r"\bb\s*->\s*depth\s*--", r"\bb\s*->\s*depth\s*\+\+"),
     ("compile-recursion-guard", ["janetc_value", "destructure_nested"], r"recursion_guard\s*--", r"recursion_guard\s*\+\+"),
-    ("gc-depth", ["janet_mark"], r"\bdepth\s*--", r"\bdepth\s*\+\+"),
+    ("gc-depth", ["janet_mark", "janet_mark_funcdef"], r"\bdepth\s*--", r"\bdepth\s*\+\+"),
     ("vm-stackn", ["janet_call", "janet_continue_no_check"], r"janet_vm\s*\.\s*stackn\s*\+\+",
      r"janet_vm\s*\.\s*stackn\s*--|janet_vm\s*\.\s*stackn\s*=\s*oldn\b"),
 ]
+# functions that charge the counter only on some trees (janet_mark_funcdef: since the gc-funcdef-depth fix)
+OPTIONAL_COUNTER_FNS = {"janet_mark_funcdef"}
 ERROR_EXIT = re.compile(r"\bjanet_panic\w*\s*\(|\bpeg_panic\s*\(|\bjanetc_c?error\s*\(|JANET_COMPILE_ERROR|\bjanet_exit\s*\(")
 
 
@@ -1059,6 +1061,8 @@ def balance_paths(bodies):
                     raise ExtractError("balance check: function %s not found" % fn)
                 continue
             if not re.search(ch, body):
+                if fn in OPTIONAL_COUNTER_FNS:
+                    continue
                 raise ExtractError("balance check: %s no longer contains the charge idiom of %s" % (fn, tag))
             w = _Walk(ch, rel)
             nodes = _parse_nodes(body[1:-1])
